@@ -32,6 +32,12 @@ def cases(rng, tier, X):
             for d in descs:
                 if rng.random() < 0.25:
                     ops.append('rx 1 ' + F.probe(d[2], rng.choice([b, F.BCAST]), rng.choice(F.STATIONS + [mapper]), b, train=rng.random() < 0.5))
+            if rng.random() < 0.25:
+                # for the duration of ONE unrelated frame B's address (or MTU) query fails / B has another address; it works again
+                # before A's frames arrive
+                ops.append(rng.choice(['set 1 getfail=2', 'set 1 getfail=3', 'set 1 mac=%s' % F.STATIONS[4]]))
+                ops.append('rx 1 ' + F.probe(F.rand_mac(rng), rng.choice([b, F.rand_mac(rng)]), F.rand_mac(rng), rng.choice([b, F.rand_mac(rng)]), train=rng.random() < 0.5))
+                ops.append('set 1 getfail=0 mac=%s' % b)
             ops.append('rx 0 ' + F.emit(mapper, a, rng.randrange(1, 65536), descs))
             ops.append('relay 0 1')
             for _ in range(rng.randint(0, 4)):
